@@ -29,6 +29,9 @@ type Req struct {
 	Observe  bool     `json:"observe,omitempty"`
 	// StdoutTo: spawned runs only - stdout is this file (e.g. /dev/full: every write fails) instead of a pipe
 	StdoutTo string `json:"stdout_to,omitempty"`
+	// FsizeLimit: spawned runs only - the process runs under RLIMIT_FSIZE = this many bytes (prlimit), so a write that
+	// would grow a file beyond it is cut short and the next one fails (what a full disk or a quota does)
+	FsizeLimit int64 `json:"fsize_limit,omitempty"`
 }
 
 type Res struct {
@@ -104,6 +107,9 @@ type Spawn struct {
 
 func (s Spawn) Run(r Req) Res {
 	cmd := exec.Command(s.Bin, r.Args...)
+	if r.FsizeLimit > 0 {
+		cmd = exec.Command("prlimit", append([]string{fmt.Sprintf("--fsize=%d", r.FsizeLimit), "--", s.Bin}, r.Args...)...)
+	}
 	cmd.Dir = r.Cwd
 	env := CmdEnv(s.Env...)
 	env = append(env, "PWD="+r.Cwd)
